@@ -90,6 +90,11 @@ func checkC19(c *core.Ctx) {
 				if !ok || (sel.Sel.Name != "Close" && sel.Sel.Name != "Write" && sel.Sel.Name != "Sync") {
 					return
 				}
+				// closing on the way out with an earlier error: the statement list
+				// this call is in goes on to return a non-nil error
+				if sel.Sel.Name == "Close" && how == "drops" && failingTail(fd, call) {
+					return
+				}
 				id, ok := ast.Unparen(sel.X).(*ast.Ident)
 				if !ok || !written[info.ObjectOf(id)] {
 					return
@@ -170,12 +175,14 @@ func checkC19(c *core.Ctx) {
 	if pk := p.Pkgs[load.Mod+"/main/bebopfmt"]; pk != nil {
 		if fd := p.FuncDecl(pk, "formatFile"); fd != nil {
 			n := 0
-			ast.Inspect(fd.Body, func(m ast.Node) bool {
-				if call, ok := m.(*ast.CallExpr); ok && wire.Canon(call.Fun) == "bebop.ReadFile" {
-					n++
-				}
-				return true
-			})
+			for _, d := range declClosure(p, pk, fd, 2) {
+				ast.Inspect(d.Body, func(m ast.Node) bool {
+					if call, ok := m.(*ast.CallExpr); ok && wire.Canon(call.Fun) == "bebop.ReadFile" {
+						n++
+					}
+					return true
+				})
+			}
 			c.Notes["bebopfmt_reparses_output_before_replacing"] = n >= 2
 			c.Check("R4", "bebopfmt parses the input before formatting it", p.Pos(fd.Pos()), n >= 1, "formatting a file that does not parse would write garbage over it")
 		}
@@ -270,6 +277,11 @@ func errorArmsReturn(c *core.Ctx, p *load.Prog, info *types.Info, fd *ast.FuncDe
 		return found
 	}
 	ast.Inspect(fd.Body, func(n ast.Node) bool {
+		// a deferred closure that cleans up when the named result is set is not an
+		// arm that handles the error: the function is already returning it
+		if _, isLit := n.(*ast.FuncLit); isLit {
+			return false
+		}
 		ifs, ok := n.(*ast.IfStmt)
 		if !ok {
 			return true
@@ -390,4 +402,36 @@ func exitOnlyOnError(info *types.Info, fd *ast.FuncDecl) bool {
 	}
 	walk(fd.Body, false)
 	return ok
+}
+
+
+// failingTail: the call is an expression statement of a block whose next
+// return statement (in the same block) yields a non-nil error.
+func failingTail(fd *ast.FuncDecl, call *ast.CallExpr) bool {
+	res := false
+	ast.Inspect(fd.Body, func(n ast.Node) bool {
+		var list []ast.Stmt
+		switch x := n.(type) {
+		case *ast.BlockStmt:
+			list = x.List
+		case *ast.CaseClause:
+			list = x.Body
+		default:
+			return true
+		}
+		for i, st := range list {
+			es, ok := st.(*ast.ExprStmt)
+			if !ok || es.X != ast.Expr(call) {
+				continue
+			}
+			for _, later := range list[i+1:] {
+				if r, ok := later.(*ast.ReturnStmt); ok {
+					res = len(r.Results) > 0 && !lastResultIsNil(r)
+					break
+				}
+			}
+		}
+		return true
+	})
+	return res
 }
